@@ -41,6 +41,12 @@ def c15(res, tier, seed):
         cases.append(("re_repeat", n, 32767, "rule a { strings: $a = /ab{1,%d}/ condition: $a }" % n, []))
     for n, lit in ((-1, "9223372036854775806"), (0, "9223372036854775807"), (1, "9223372036854775808"), (2, "9223372036854775809"), (1000, "99999999999999999999999")):
         cases.append(("int_literal", n, 0, "rule a { condition: %s > 0 }" % lit, []))
+    # the largest literal and the first one beyond it in every base, interleaved: a literal that is in range is accepted whatever
+    # was compiled before it
+    for n, lit in ((0, "0o777777777777777777777"), (1, "0o1000000000000000000000"), (0, "0o777777777777777777777"), (0, "0x7FFFFFFFFFFFFFFF"), (1, "0x8000000000000000"),
+                   (0, "0x7FFFFFFFFFFFFFFF"), (0, "0o777777777777777777777"), (1, "9223372036854775808"), (0, "0o777777777777777777777"), (0, "9223372036854775807"),
+                   (1, "0xFFFFFFFFFFFFFFFFF"), (0, "0o1"), (0, "1KB"), (1, "9223372036854775807KB"), (0, "8388607MB"), (1, "8796093022208MB")):
+        cases.append(("int_literal", n, 0, "rule a { condition: %s > 0 }" % lit, []))
     for L in (10000, 5, 1):
         for n in (L - 1, L, L + 1, L + 2, 10 * L + 3):
             if n < 1: continue
@@ -274,6 +280,18 @@ def c15(res, tier, seed):
              "scan 0 1 blocks %s %s -" % (",".join(["4096"] * 12), ",".join(str(2 * k) for k in range(13))), "opt itersleep 0", "stimeout 0 0", "scan 0 1 mem - - -", "sdestroy 0", "rdestroy 0", "finalize"]
     run = yv.run_script(exe, lines, wd, name="c15_timeout_resume", hang=120, timeout=300)
     rets = [e for e in run.events if e["e"] == "ScanRet"]
+    # the same source delivering blocks of 2048 bytes without ever answering not-ready: the deadline holds for small blocks too
+    lines2 = ["init", "opt iterlog 0", "opt logmatches 0", "opt hang 120", "compiler 0", "add 0 - " + yv.hx(b'rule a { strings: $a = "needle" condition: $a }'), "getrules 0 0", "cdestroy 0",
+              "scanner 0 0", "stimeout 0 1", "datarep 1 %s %d" % (yv.hx(b"abcd"), 12 * 512), "opt itersleep 700",
+              "scan 0 1 blocks %s - -" % ",".join(["2048"] * 12), "opt itersleep 0", "stimeout 0 0", "scan 0 1 mem - - -", "sdestroy 0", "rdestroy 0", "finalize"]
+    run2 = yv.run_script(exe, lines2, wd, name="c15_timeout_smallblocks", hang=120, timeout=300)
+    rets2 = [e for e in run2.events if e["e"] == "ScanRet"]
+    if not run2.complete or len(rets2) < 2:
+        res.violation("timeout of a scan over small slow blocks: %s" % yv.crash_summary(run2), yv.save_replay("C15", "timeout_smallblocks_crash", {"crash": yv.crash_summary(run2)}))
+    else:
+        records.append({"kind": "timeout", "ret": rets2[0]["ret"], "ms": rets2[0]["ms"], "timeout": 1, "slack_ms": 4000})
+        owners.append(("timeout", "12 blocks of 2048 bytes that take 700 ms each to arrive", rets2[0]["ms"], "ret=%d" % rets2[0]["ret"]))
+        res.count(1, ("timeout", "small blocks"))
     if not run.complete or len(rets) < 2:
         res.violation("timeout of a suspended and repeated scan: %s" % yv.crash_summary(run), yv.save_replay("C15", "timeout_resume_crash", {"crash": yv.crash_summary(run)}))
     else:
